@@ -26,6 +26,7 @@ from .execution import (
     check_abort_no_retry,
     check_breaker,
     classify_for_breaker,
+    ensure_settled,
     make_attempt_context,
     record_cancel,
     record_failure,
@@ -73,45 +74,48 @@ class Policy:
     ) -> Any:
         ctx = ExecutionContext.create(self.circuit_breaker, on_metric, on_log, operation)
 
-        # Circuit breaker check
-        check_breaker(ctx)
-
-        # Pre-flight abort check (no retry configured); the cancel it records must
-        # settle a call the breaker has admitted, not somebody else's probe.
-        if self.retry is None and check_abort_no_retry(ctx, abort_if):
-            raise AbortRetryError()
-
         try:
-            if self.retry is None:
-                result = self._call_without_retry(ctx, func, on_attempt_start, on_attempt_end)
-            else:
-                result = self.retry.call(
-                    func,
-                    on_metric=on_metric,
-                    on_log=on_log,
-                    operation=operation,
-                    abort_if=abort_if,
-                    sleep=sleep,
-                    before_sleep=before_sleep,
-                    sleeper=sleeper,
-                    on_attempt_start=on_attempt_start,
-                    on_attempt_end=on_attempt_end,
-                )
-            record_success(ctx)
-            return result
+            # Circuit breaker check
+            check_breaker(ctx)
 
-        except (KeyboardInterrupt, SystemExit):
-            record_cancel(ctx)
-            raise
-        except AbortRetryError as exc:
-            self._handle_abort_call(ctx, exc, on_attempt_end)
-            raise
-        except RetryExhaustedError as exc:
-            self._handle_exhausted_call(ctx, exc)
-            raise
-        except Exception as exc:
-            self._handle_exception_call(ctx, exc, on_attempt_end)
-            raise
+            # Pre-flight abort check (no retry configured); the cancel it records must
+            # settle a call the breaker has admitted, not somebody else's probe.
+            if self.retry is None and check_abort_no_retry(ctx, abort_if):
+                raise AbortRetryError()
+
+            try:
+                if self.retry is None:
+                    result = self._call_without_retry(ctx, func, on_attempt_start, on_attempt_end)
+                else:
+                    result = self.retry.call(
+                        func,
+                        on_metric=on_metric,
+                        on_log=on_log,
+                        operation=operation,
+                        abort_if=abort_if,
+                        sleep=sleep,
+                        before_sleep=before_sleep,
+                        sleeper=sleeper,
+                        on_attempt_start=on_attempt_start,
+                        on_attempt_end=on_attempt_end,
+                    )
+                record_success(ctx)
+                return result
+
+            except (KeyboardInterrupt, SystemExit):
+                record_cancel(ctx)
+                raise
+            except AbortRetryError as exc:
+                self._handle_abort_call(ctx, exc, on_attempt_end)
+                raise
+            except RetryExhaustedError as exc:
+                self._handle_exhausted_call(ctx, exc)
+                raise
+            except Exception as exc:
+                self._handle_exception_call(ctx, exc, on_attempt_end)
+                raise
+        finally:
+            ensure_settled(ctx)
 
     def _call_without_retry(
         self,
@@ -210,37 +214,41 @@ class Policy:
     ) -> RetryOutcome[Any]:
         ctx = ExecutionContext.create(self.circuit_breaker, on_metric, on_log, operation)
 
-        # Circuit breaker check
-        if ctx.breaker is not None:
-            decision = ctx.breaker.allow()
-            ctx.emit_breaker_event(decision.event, decision.state)
-            if not decision.allowed:
-                return build_circuit_open_outcome(ctx, decision.state.value)
+        try:
+            # Circuit breaker check
+            if ctx.breaker is not None:
+                decision = ctx.breaker.allow()
+                ctx.admitted = decision.allowed
+                ctx.emit_breaker_event(decision.event, decision.state)
+                if not decision.allowed:
+                    return build_circuit_open_outcome(ctx, decision.state.value)
 
-        # Pre-flight abort check (no retry configured); the cancel it records must
-        # settle a call the breaker has admitted, not somebody else's probe.
-        if self.retry is None and check_abort_no_retry(ctx, abort_if):
-            return build_aborted_outcome(ctx)
+            # Pre-flight abort check (no retry configured); the cancel it records must
+            # settle a call the breaker has admitted, not somebody else's probe.
+            if self.retry is None and check_abort_no_retry(ctx, abort_if):
+                return build_aborted_outcome(ctx)
 
-        # Delegate to retry if configured
-        if self.retry is not None:
-            return self._execute_with_retry(
-                ctx,
-                func,
-                on_metric,
-                on_log,
-                operation,
-                abort_if,
-                sleep,
-                before_sleep,
-                sleeper,
-                on_attempt_start,
-                on_attempt_end,
-                capture_timeline,
-            )
+            # Delegate to retry if configured
+            if self.retry is not None:
+                return self._execute_with_retry(
+                    ctx,
+                    func,
+                    on_metric,
+                    on_log,
+                    operation,
+                    abort_if,
+                    sleep,
+                    before_sleep,
+                    sleeper,
+                    on_attempt_start,
+                    on_attempt_end,
+                    capture_timeline,
+                )
 
-        # No retry - single attempt
-        return self._execute_without_retry(ctx, func, on_attempt_start, on_attempt_end)
+            # No retry - single attempt
+            return self._execute_without_retry(ctx, func, on_attempt_start, on_attempt_end)
+        finally:
+            ensure_settled(ctx)
 
     def _execute_with_retry(
         self,
